@@ -65,15 +65,16 @@ func InitGenesis(ctx sdk.Ctx, keeper keeper.Keeper, supplyKeeper types.AuthKeepe
 			os.Exit(1)
 		}
 		supplyKeeper.SetModuleAccount(ctx, stakedPool)
+		// the coins were created here, so add them to the total supply
+		keeper.AccountKeeper.SetSupply(ctx, keeper.AccountKeeper.GetSupply(ctx).Inflate(stakedCoins))
 	} else {
-		// if it is provided in the genesis file then ensure the two are equal
+		// if it is provided in the genesis file then ensure the two are equal;
+		// the supply set by the auth module already includes the provided pool balance
 		if !stakedPool.GetCoins().IsEqual(stakedCoins) {
 			keeper.Logger(ctx).Error(fmt.Sprintf("%s module account total does not equal the amount in each validator account", types.StakedPoolName))
 			os.Exit(1)
 		}
 	}
-	// add coins to the total supply
-	keeper.AccountKeeper.SetSupply(ctx, keeper.AccountKeeper.GetSupply(ctx).Inflate(stakedCoins))
 	// don't need to run Tendermint updates if we exported
 	if data.Exported {
 		for _, lv := range data.PrevStateValidatorPowers {
